@@ -44,7 +44,7 @@ fn both(args: &[String]) {
             _ => continue,
         };
         // the rules the back-ends actually run (C08 reasons about the attempts of THAT run)
-        let gopt = if reports { opt_rules_json(&opt) } else { serde_json::Value::Null };
+        let gopt = if reports { opt_rules_json(&opt) } else { serde_json::json!({}) };
         let vm = pest_vm::Vm::new(opt);
         pest::set_call_limit(std::num::NonZeroUsize::new(20000));
         pest::set_error_detail(detail);
